@@ -149,6 +149,14 @@ func (r *Results) Next() bool {
 	select {
 	case batch, ok := <-r.rowChan:
 		if !ok {
+			// The pipeline also winds down (and closes the channel) when the
+			// Query context is canceled. If that is why the channel closed,
+			// this is not a clean completion: select picks at random between
+			// the closed channel and ctx.Done when both are ready, and rows
+			// may never have been produced at all.
+			if r.callerCtx.Err() != nil {
+				return r.terminate()
+			}
 			// Clean completion: all workers finished and every buffered row
 			// has been delivered. Recorded errors (failed blocks, a failed
 			// MetaStore iteration), if any, are the terminal state; the query
